@@ -143,8 +143,6 @@ def check_roundtrip_bounded(ctx):
                 continue                     # known finding (read-back of dictionaries) is recorded on the .rs path
             bad, n = None, 0
             for v in vals:
-                if kind in ('integer', 'real') and v < 0:
-                    continue                 # a leading minus at top level is read as the Negate operator by .r (outside this stand-in)
                 n += 1
                 pth = os.path.join(d, f"v{n}.kg")
                 k['fpath'], k['fval'] = pth, v
